@@ -283,7 +283,20 @@ def _as_completed(fs, timeout=None):
     w = vnet.current()
     if w is not None and w.sched is not None:
         w.sched.signal_all_submitted()
-    return _cf.as_completed(fs, timeout)
+    if timeout is None or w is None:
+        return _cf.as_completed(fs, timeout)
+    # a deadline for the whole iteration, as in the standard library - measured on the virtual clock (the busiest worker's), since the
+    # peers' delays are virtual: when a result arrives later than `timeout` after the call, the caller gets TimeoutError instead
+    fs = list(fs)
+
+    def gen():
+        start, done = w.max_clock(), 0
+        for f in _cf.as_completed(fs):
+            if w.max_clock() - start > timeout:
+                raise _cf.TimeoutError('%d (of %d) futures unfinished' % (len(fs) - done, len(fs)))
+            done += 1
+            yield f
+    return gen()
 
 
 class _Facade:
